@@ -46,7 +46,7 @@ func oracleC11(v *View, vd *Verdict) {
 		ackedT := map[string]int64{}
 		for _, e := range sv.Evs {
 			if e.Kind == EvG2C && e.SNErr == nil && e.SN.Type == refsn.PUBLISH && e.SN.QoS > 0 && !died {
-				k := string(e.SN.Data)
+				k := fmt.Sprintf("%d/%s", e.SN.MsgID, e.SN.Data) // (short payloads repeat; the broker's ids do not)
 				// (the retry timer may fire while the acknowledgement, already read, waits to be handled:
 				// a slow gateway — only a copy sent later than that is one too many)
 				if acked[k] && e.T-ackedT[k] > slack(v) {
@@ -100,6 +100,8 @@ func oracleC11(v *View, vd *Verdict) {
 					// the client asked to become active with CONNECT: the gateway may talk to it again
 					if p.Type == refsn.CONNACK {
 						connecting = false
+						// (what the broker sent between the CONNECT and this CONNACK goes to an active client)
+						pending, owedRels = nil, nil
 					}
 				case w.st == stAsleep && !inFlush && !w.sleepReq:
 					// (a)/(c): nothing may be sent to a sleeping client
